@@ -172,6 +172,15 @@ def run(ctx):
     if quick:
         texts2 = ctx.rng.sample(texts2, 500)
     check_table(ctx, texts2, ext, "extended", coq_ok, 3 if quick else 6, 5 if quick else 15)
+    # user-defined macros (kfl.AddMacro) whose definitions carry string literals with escaped quotes (odd and even counts) and a
+    # backslash: the theorems assume definitions without backslashes (table_ok), so this table is judged by the reference
+    # expansion and the idempotence / order oracles on the implementation only
+    esc = list(ext) + [("sized", 'request.headers["Size"] == "7\\" tablet"'), ("quoted", 'a.b == "say \\"http\\" twice"'),
+                       ("bs", 'a.path == "c:\\\\dir"')]
+    texts3 = [(s_, q) for s_, q in K.gen_c17(ctx, [n for n, _ in esc], 150 if quick else 3000, dict(esc)) if s_ != "gram" and "\\" not in q]
+    texts3 += [("wf", t) for t in ("http and sized", "sized and http", "http and quoted and redis", "quoted or http", "h and bs and ht and sized",
+                                   "sized", "(http) and (sized) and (amqp)", 'http and a == "sized" and sized')]
+    check_table(ctx, texts3, esc, "escaped-definitions", False, 3 if quick else 6, 5 if quick else 15)
     ctx.trusted += [
         "translator vh-translate/macros.go (Dissector.Macros() of every registered extension -> gen/Macros.v)",
         "modelled, not verified: regexp2 (the one pattern family is modelled as a scanner, compared with the real ExpandMacros on every generated text); "
